@@ -48,7 +48,7 @@ func manifestMain() {
 			"technique":           pt.Technique,
 		})
 	}
-	var na []map[string]string
+	na := []map[string]string{}
 	var naIDs []string
 	for id := range notApplicable {
 		if _, claimed := properties[id]; !claimed {
